@@ -167,3 +167,24 @@ func VerifC06_LocalStores() {
 func VerifC06_ChopFileCancelled()    { VerifC07_ChopFile() }
 func VerifC06_CopyCancelled()        { VerifC07_Copy() }
 func VerifC06_ChunkStreamCancelled() { VerifC07_ChunkStream() }
+
+// VerifC06_ChopStale: the file given to chop (or the store phase of make) differs from the index
+// in one byte (a newer version of the file, or a stale index): success still means that every
+// chunk of the index reads back valid from the store - bytes that do not hash to an ID are not
+// stored under it.
+func VerifC06_ChopStale() {
+	k := 2
+	name, blob, idx, _ := verifSymBlob(k)
+	changed := append([]byte(nil), blob...)
+	j := vChoose("changed-byte", k)
+	changed[j] ^= vU8("change")
+	os.WriteFile(name, changed, 0644)
+	dst := &verifStore{}
+	n := 1 + vChoose("workers", 2)
+	err := ChopFile(context.Background(), name, idx.Chunks, dst, n, NullProgressBar{})
+	vCover("returned")
+	if err == nil {
+		vCover("success")
+		verifAllStored(dst, idx, "ChopFile")
+	}
+}
